@@ -18,13 +18,13 @@ META = {
         "every flavour, from a thread payload that drives a private event loop), services (created before / after "
         "start / inside payloads) or executed (from outside threads, thread payloads and payloads of the other "
         "coroutine flavour), each alternating synchronous sections (overlap detector, context probe) and "
-        "checkpoints; 0-4 thread payloads blocking for 0.6 s (waiting, or - 10 % of the scenarios - computing in a pure Python loop), a thread payload with a trio run of its own whose worker thread calls execute(flavour=trio), sometimes a crowd of 40-130 of them while coroutine payloads adopt more, adoption of thread payloads while thread creation fails (injected fault); payloads parked on an awaitable only they reference while another thread runs a garbage collection; foreign threads adopting coroutine payloads while a shielded trio cleanup keeps the runtime in its shutdown phase; line-level delay injection. The identity check "
+        "checkpoints; 0-4 thread payloads blocking for 0.6 s (waiting, or - 10 % of the scenarios - computing in a pure Python loop), a thread payload with a trio run of its own whose worker thread calls execute(flavour=trio), sometimes a crowd of 40-130 of them while coroutine payloads adopt more, adoption of thread payloads while thread creation fails (injected fault); payloads parked on an awaitable only they reference while another thread runs a garbage collection; foreign threads adopting coroutine payloads while a shielded trio cleanup keeps the runtime in its shutdown phase; the runtime in a thread of its own while the main thread, inside execute(), is hit by SIGINT; a thread payload failing while another still blocks (the loops run on until they are cancelled); line-level delay injection. The identity check "
         "(one thread + one loop / one trio run per flavour over the whole run) is deterministic, the overlap "
         "detector a probabilistic second line. Non-trivial = both flavours had >= 2 payloads; distinct by shape."
     ),
     "assumptions": [
         "executed thread payloads run in their caller's thread (C10), only adopted and service thread payloads must stay off the two loop threads",
-        "'blocking never stalls coroutine payloads' is restated in events: while a thread payload blocks 0.6 s each loop's heartbeat (period 10 ms) advances at least twice and never pauses longer than 0.35 s - unless a plain reference thread ticking every 10 ms paused 0.1 s or more in the same window (starved machine); synchronous execute calls between the loops legitimately hold a loop for the ~0.1 s the executed payload takes",
+        "'blocking never stalls coroutine payloads' is restated in events: while a thread payload blocks 0.6 s each loop's heartbeat (period 10 ms) advances at least twice and, for the 1.3 s blockers, never pauses longer than 0.6 s - unless a reference event loop of the harness beating every 10 ms paused 0.1 s or more in the same window, or the scheduler statistics show that the loop's thread waited for a CPU (contended machine); synchronous execute calls between the loops legitimately hold a loop for the ~0.1 s the executed payload takes",
     ],
     "shard_timeout": {"quick": 900, "thorough": 3600},
 }
@@ -47,8 +47,25 @@ def worker_program(rnd, forever=True, adoptees=None):
     return body + ([["beat", 0.02, None]] if forever else [])
 
 
+def gen_interrupted_execute(rnd, spec):
+    """The runtime in a thread of its own; the main thread is inside execute(flavour=asyncio) when SIGINT arrives."""
+    gen = {"accept_delay": 0.03, "services": [], "grace": 0.3, "ticker": True, "accept_in_thread": True,
+           "payloads": [{"id": "heart_" + fl, "flavour": fl, "when": "queued", "program": [["ctx"], ["beat", 0.01, None]], "cleanup": {"kind": "none"}} for fl in common.COROUTINE]}
+    gen["payloads"].append({"id": "xsig", "flavour": rnd.choice(["asyncio", "asyncio", "trio"]), "executed": True, "cleanup": {"kind": "sync", "dur": 0.0},
+                            "program": [["ctx"], ["crit", 300], ["sleep", rnd.choice([0.4, 0.6])], ["crit", 300], ["return", "str"]]})
+    gen["payloads"].append({"id": "other", "flavour": "asyncio", "when": "queued", "cleanup": {"kind": "none"},
+                            "program": [["crit", 300], ["sleep", 0.005]] * 40 + [["beat", 0.02, None]]})
+    gen["main_script"] = [["wait_running", 10], ["execute", "xsig"]]
+    gen["script"] = [["wait_running", 10], ["sleep", rnd.choice([0.15, 0.25])], ["sigint"], ["sleep", 0.8], ["quiesce"]]
+    gen["tags"] = ["interrupt_in_a_thread_waiting_in_execute"]
+    return {"watchdog": 40, "inject": common.inject_conf(rnd, 0.5), "generations": [gen], "meta": {"direction": "none"}}
+
+
 def gen_case(rnd, spec):
+    if (spec.get("case_index") == 5 and spec.get("shard") in (0, 1, 2, 3)) or rnd.random() < 0.03:
+        return gen_interrupted_execute(rnd, spec)
     gen = {"accept_delay": rnd.choice([0.03, 0.05]), "payloads": [], "services": [], "grace": 0.2, "ticker": True}
+    long_blocker = False
     script = [["wait_running", 10]]
     direction = rnd.choice(["asyncio_to_trio", "trio_to_asyncio"])
     for fl in common.COROUTINE:
@@ -142,6 +159,12 @@ def gen_case(rnd, spec):
                 gen["payloads"].append(small)
                 ops += [["adopt", small["id"]], ["sleep", 0.06]]
             gen["payloads"].append({"id": new("chatty"), "flavour": fl, "when": "queued", "program": ops + [["beat", 0.02, None]], "cleanup": {"kind": "none"}})
+    # a thread payload fails while another one still blocks: the coroutine payloads run on until they are cancelled
+    if rnd.random() < 0.15:
+        gen["payloads"].append({"id": new("tblocked"), "flavour": "threading", "when": "queued", "program": [["ctx"], ["block"]], "cleanup": {"kind": "none"}})
+        gen["payloads"].append({"id": new("tfail"), "flavour": "threading", "when": "queued", "cleanup": {"kind": "none"},
+                                "program": [["sleep", rnd.choice([0.3, 0.5])], ["raise", "LookupError"]]})
+        gen.setdefault("tags", []).append("thread_failure_beside_blocked_thread")
     # a thread payload that blocks by computing (it never releases the interpreter voluntarily)
     if rnd.random() < 0.1:
         gen["payloads"].append({"id": new("burner"), "flavour": "threading", "when": "queued", "cleanup": {"kind": "none"},
@@ -157,7 +180,8 @@ def gen_case(rnd, spec):
         gen.setdefault("tags", []).append("execute_from_foreign_trio_worker")
     # the same thread payload (the very same callable) adopted a second time by coroutine payloads while its first run still blocks
     if rnd.random() < 0.3:
-        again = {"id": new("again"), "flavour": "threading", "when": "queued", "program": [["ctx"], ["block", 0.6]], "cleanup": {"kind": "none"}}
+        again = {"id": new("again"), "flavour": "threading", "when": "queued", "program": [["ctx"], ["block", 1.3]], "cleanup": {"kind": "none"}}
+        long_blocker = True
         gen["payloads"].append(again)
         for fl in common.COROUTINE:
             gen["payloads"].append({"id": new("readopter"), "flavour": fl, "when": "queued", "cleanup": {"kind": "none"},
@@ -205,7 +229,7 @@ def gen_case(rnd, spec):
                     gen["services"].append({"id": p["id"], "flavour": fl, "program": p["program"], "cleanup": p["cleanup"], "create": "before"})
         script += [["sleep", 0.2], ["gc"]]
         gen.setdefault("tags", []).append("parked_payloads_and_gc")
-    script.append(["sleep", 0.9])
+    script.append(["sleep", 1.6 if long_blocker else 0.9])
     script.append(["quiesce"])
     # the shutdown window: a trio payload keeps the runtime in its cleanup phase while foreign threads still adopt
     if rnd.random() < 0.35:
@@ -250,7 +274,8 @@ def judge(case, run, result):
             result.inconc("heartbeat payload of %s never started" % fl)
             return []
         homes[fl] = {"th": h["th"], "loop": h["loop"], "token": h["token"]}
-    if not run.first("start", gen=0, pid="heart_asyncio")["main"]:
+    accepting = run.first("call", gen=0, op="accept")
+    if accepting is None or run.first("start", gen=0, pid="heart_asyncio")["th"] != accepting["th"]:
         problems.append(("asyncio payloads do not run in the thread that called accept", None))
     observed = {"asyncio": 0, "trio": 0}
     payload_counts = {"asyncio": set(), "trio": set()}
@@ -345,14 +370,18 @@ def judge(case, run, result):
             if len(beats) < 2:
                 problems.append(("while thread payload %s blocked for %.2f s the %s heartbeat advanced only %d time(s)"
                                  % (s["pid"], end[0]["t"] - s["t"], fl, len(beats)), None))
-            elif longest_pause(beats) > 0.35 and reference < 0.1 and cpu_wait(fl) > 0.1:
+            elif end[0]["t"] - s["t"] < 1.0:
+                # a 0.6 s window: only "keeps advancing" is judged; the pause criterion needs the long (1.3 s) blockers - with
+                # synchronous execute calls between the loops and thread start-up on a busy machine 0.35 s pauses do occur
+                result.count("heartbeats_during_blocking", len(beats))
+            elif longest_pause(beats) > 0.6 and reference < 0.1 and cpu_wait(fl) > 0.1:
                 # the loop's thread was runnable but got no CPU for that long (scheduler statistics): a contended machine
                 result.count("pauses_explained_by_cpu_contention")
-            elif longest_pause(beats) > 0.35 and reference < 0.1 and "crowd" in gen.get("tags", []):
+            elif longest_pause(beats) > 0.6 and reference < 0.1 and "crowd" in gen.get("tags", []):
                 # coroutine payloads start threads here (adopt of a thread payload returns when the new thread runs): on a loaded
                 # machine with 130 threads that takes its time - start-up cost, not blocking
                 result.count("pauses_not_judged_while_a_crowd_of_threads_starts")
-            elif longest_pause(beats) > 0.35 and reference < 0.1:
+            elif longest_pause(beats) > 0.6 and reference < 0.1:
                 # the loop stood still for most of the blocking time although a plain thread ticking every 10 ms never paused
                 # for 0.1 s: not a starved machine, the loop was held up
                 problems.append(("while thread payload %s blocked for %.2f s the %s heartbeat (period 10 ms) paused for %.2f s; a plain reference "
@@ -360,6 +389,26 @@ def judge(case, run, result):
             else:
                 result.count("heartbeats_during_blocking", len(beats))
         result.count("blocking_thread_payloads_observed")
+    if "thread_failure_beside_blocked_thread" in gen.get("tags", []) and not burning:
+        failed = run.first("fail", gen=0)
+        for fl in common.COROUTINE:
+            cancelled = run.first("cancelled", gen=0, pid="heart_" + fl)
+            beats = [e for e in run.of("beat", gen=0, pid="heart_" + fl)]
+            if failed is None or cancelled is None or not beats:
+                continue
+            if cancelled["t"] <= failed["t"]:
+                continue
+            # the heartbeat between the failure and its own cancellation: it may end any moment, but it must not stand still
+            inside = [e["t"] for e in beats if failed["t"] <= e["t"] <= cancelled["t"]]
+            marks = [failed["t"]] + inside + [cancelled["t"]]
+            gap = max(b - a for a, b in zip(marks, marks[1:]))
+            ticks = [e["t"] for e in run.of("tick", gen=0) if failed["t"] <= e["t"] <= cancelled["t"]]
+            marks = [failed["t"]] + ticks + [cancelled["t"]]
+            reference = max(b - a for a, b in zip(marks, marks[1:]))
+            result.count("ends_by_thread_failure_beside_a_blocked_thread_checked")
+            if gap > 0.5 and reference < 0.1:
+                problems.append(("after thread payload %s failed while %s was still blocking, the %s heartbeat (period 10 ms) stood still for %.2f s before "
+                                 "it was cancelled; the reference loop never paused longer than %.2f s" % (failed["pid"], "another thread payload", fl, gap, reference), None))
     for tag in gen.get("tags", []):
         result.count("scenarios_with_%s" % tag)
     unexpected = [e for e in run.of("raised", gen=0, op="adopt") if not e["pid"].startswith(("nothread", "window"))]
@@ -387,7 +436,7 @@ def run_shard(spec):
     for i in range(spec["n"]):
         if only is not None and i != only:
             continue
-        case = gen_case(core.rng(PID, spec["seed"], spec["shard"], i), spec)
+        case = gen_case(core.rng(PID, spec["seed"], spec["shard"], i), dict(spec, case_index=i))
         problems, run = execute(case, result)
         result.case(common.sample(case, run, **{"payloads": len(case["generations"][0]["payloads"]), "services": len(case["generations"][0]["services"]), "direction": case["meta"]["direction"]}),
                     nontrivial=len(run.of("start")) >= 6, key=common.shape(case))
@@ -400,7 +449,7 @@ def run_shard(spec):
 def finish(total, tier):
     need = ["synchronous_sections_checked", "blocking_thread_payloads_observed", "heartbeats_during_blocking", "scenarios_with_foreign_loop_submitter",
             "steps_adopted_threading", "sections_that_adopt_checked", "blocking_executes_observed", "scenarios_with_crowd", "scenarios_with_no_threads",
-            "scenarios_with_parked_payloads_and_gc", "scenarios_with_thread_payload_adopted_again_while_running", "scenarios_with_compute_bound_thread_payload", "compute_bound_thread_payloads_observed",
+            "scenarios_with_parked_payloads_and_gc", "scenarios_with_thread_payload_adopted_again_while_running", "scenarios_with_compute_bound_thread_payload", "scenarios_with_interrupt_in_a_thread_waiting_in_execute", "ends_by_thread_failure_beside_a_blocked_thread_checked", "compute_bound_thread_payloads_observed",
             "scenarios_with_execute_from_foreign_trio_worker", "synchronous_first_sections_of_plain_callables_checked", "scenarios_with_shutdown_window", "payload_endings_checked"]
     need += ["steps_%s_%s" % (r, f) for r in ("adopted", "service", "executed") for f in common.COROUTINE]
     for name in need:
